@@ -1553,3 +1553,283 @@ func ruleRunnerWait(c *Ctx) {
 		c.R.Undecided("R-SIB/runnerwait", "", "instance-floor", fmt.Sprintf("only %d runner Wait implementations found in internal/cmdrunner, 2 expected", n))
 	}
 }
+
+// ---------- R-ROUTE/stdio: every received stdio chunk is written; the net/rpc copy runs to EOF ----------
+
+func ruleStdioDelivery(c *Ctx) {
+	p := c.P
+	// (a) gRPC client side: on a recognised channel, every path from the
+	// channel dispatch back to the next Recv writes the chunk's bytes
+	if f := p.Fn("grpcStdioClient.Run"); f != nil {
+		info := f.Pkg.TypesInfo
+		g := p.Graph(f)
+		var recvN *Node
+		var dataV *types.Var
+		for _, m := range g.Nodes {
+			as, ok := m.Ast.(*ast.AssignStmt)
+			if !ok || len(as.Rhs) != 1 || len(as.Lhs) != 2 {
+				continue
+			}
+			if call, ok := ast.Unparen(as.Rhs[0]).(*ast.CallExpr); ok && strings.HasSuffix(p.CalleeName(f, call), "GRPCStdio_StreamStdioClient.Recv") {
+				recvN = m
+				dataV, _ = identObj(info, as.Lhs[0]).(*types.Var)
+			}
+		}
+		if recvN == nil || dataV == nil {
+			c.R.Undecided("R-ROUTE/stdio", f.Name, "anchor", "the Recv call on the stdio stream was not found")
+		} else {
+			mentionsData := func(e ast.Node) bool {
+				found := false
+				ast.Inspect(e, func(x ast.Node) bool {
+					if se, ok := x.(*ast.SelectorExpr); ok && se.Sel.Name == "Data" && identObj(info, se.X) == dataV {
+						found = true
+					}
+					return true
+				})
+				return found
+			}
+			// locals bound to the chunk's bytes
+			alias := map[*types.Var]bool{}
+			for _, m := range g.Nodes {
+				if m.Ast == nil {
+					continue
+				}
+				defs, _ := nodeDefsUses(info, m.Ast)
+				for v, rhs := range defs {
+					if rhs != nil && mentionsData(rhs) {
+						alias[v] = true
+					}
+				}
+			}
+			isWrite := func(m *Node) bool {
+				if m.Ast == nil {
+					return false
+				}
+				for _, call := range callsIn(m.Ast) {
+					nm := p.CalleeName(f, call)
+					isW := nm == "io.Copy" || nm == "io.CopyBuffer" || strings.HasSuffix(nm, ".Write") || nm == "io.WriteString"
+					if !isW {
+						continue
+					}
+					for _, a := range call.Args {
+						if mentionsData(a) {
+							return true
+						}
+						if v, ok := identObj(info, a).(*types.Var); ok && alias[v] {
+							return true
+						}
+					}
+				}
+				return false
+			}
+			// Which locals hold one of the two writer parameters is tracked along
+			// every path from the Recv (copies propagate, nil and declarations
+			// clear, a write of the chunk clears everything). Reaching the next Recv
+			// or the end of Run while the local that the write call uses as its
+			// destination still holds a writer means: a writer was selected for
+			// this chunk and the chunk was not written.
+			isWriterParam := map[*types.Var]bool{}
+			for _, fd := range f.Type.Params.List {
+				for _, nm := range fd.Names {
+					if v, ok := info.Defs[nm].(*types.Var); ok && v.Type().String() == "io.Writer" {
+						isWriterParam[v] = true
+					}
+				}
+			}
+			idx := map[*types.Var]uint{}
+			var tracked []*types.Var
+			bit := func(v *types.Var) uint64 {
+				i, ok := idx[v]
+				if !ok {
+					if len(tracked) >= 60 {
+						return 0
+					}
+					i = uint(len(tracked))
+					idx[v] = i
+					tracked = append(tracked, v)
+				}
+				return 1 << i
+			}
+			destMask := uint64(0)
+			nDest := 0
+			for _, m := range g.Nodes {
+				if m.Ast == nil || !isWrite(m) {
+					continue
+				}
+				for _, call := range callsIn(m.Ast) {
+					var d ast.Expr
+					switch nm := p.CalleeName(f, call); {
+					case (nm == "io.Copy" || nm == "io.CopyBuffer" || nm == "io.WriteString") && len(call.Args) >= 1:
+						d = call.Args[0]
+					case strings.HasSuffix(nm, ".Write"):
+						if se, ok := ast.Unparen(call.Fun).(*ast.SelectorExpr); ok {
+							d = se.X
+						}
+					}
+					if v, ok := identObj(info, d).(*types.Var); ok && d != nil && !v.IsField() {
+						nDest++
+						if !isWriterParam[v] {
+							destMask |= bit(v)
+						}
+					}
+				}
+			}
+			// the walk carries the path domain's facts too (ok := true … if !ok)
+			pd := &pathDomain{p: p, f: f}
+			type item struct {
+				n *Node
+				s Store
+			}
+			holdKey := func(v *types.Var) string { return "H:" + varKey(v) }
+			seenSt := map[*Node]map[string]bool{}
+			var work []item
+			push := func(n *Node, s0 Store) {
+				k := s0.Key()
+				if seenSt[n] == nil {
+					seenSt[n] = map[string]bool{}
+				}
+				if seenSt[n][k] || len(seenSt[n]) >= stateCap {
+					return
+				}
+				seenSt[n][k] = true
+				work = append(work, item{n, s0})
+			}
+			for _, e := range recvN.Succs {
+				if s2, ok := pd.Refine(e, NewStore()); ok {
+					push(e.To, s2)
+				}
+			}
+			destHeld := func(s0 Store) bool {
+				for _, v := range tracked {
+					if destMask&(1<<idx[v]) != 0 && s0.Has(holdKey(v)) {
+						return true
+					}
+				}
+				return false
+			}
+			nArms, bad := nDest, false
+			for len(work) > 0 && !bad {
+				cur := work[len(work)-1]
+				work = work[:len(work)-1]
+				if cur.n == recvN || cur.n == g.Exit {
+					if destHeld(cur.s) {
+						bad = true
+					}
+					continue
+				}
+				outs := []Store{cur.s}
+				if cur.n.Kind == NNormal {
+					outs = pd.Transfer(cur.n, cur.s)
+				}
+				for _, o := range outs {
+					if cur.n.Ast != nil {
+						if isWrite(cur.n) {
+							for _, k := range o.Keys("H:") {
+								o = o.Without(k)
+							}
+						} else {
+							defs, _ := nodeDefsUses(info, cur.n.Ast)
+							as, isAs := cur.n.Ast.(*ast.AssignStmt)
+							for v, rhs := range defs {
+								if v.IsField() {
+									continue
+								}
+								if isAs && len(as.Lhs) == len(as.Rhs) {
+									for i, l := range as.Lhs {
+										if identObj(info, l) == v {
+											rhs = as.Rhs[i]
+										}
+									}
+								}
+								holds := false
+								if rhs != nil {
+									if u, ok := identObj(info, ast.Unparen(rhs)).(*types.Var); ok {
+										holds = isWriterParam[u] || cur.s.Has(holdKey(u))
+									}
+								}
+								if holds {
+									o = o.With(holdKey(v), "1")
+								} else {
+									o = o.Without(holdKey(v))
+								}
+							}
+						}
+					}
+					for _, e := range cur.n.Succs {
+						if s2, ok := pd.Refine(e, o); ok {
+							push(e.To, s2)
+						}
+					}
+				}
+			}
+			construct := "every chunk received on a known channel is written"
+			switch {
+			case nArms < 1:
+				c.R.Undecided("R-ROUTE/stdio", f.Name, construct, fmt.Sprintf("only %d write call(s) with a variable destination found, 1 expected", nArms))
+			case bad:
+				c.R.Violate("R-ROUTE/stdio", p.Pos(recvN.Ast), f.Name, construct,
+					"a chunk received for stdout or stderr can reach the next Recv (or the end of Run) without its bytes being written to the selected writer (the write became conditional): those bytes of the plugin's output are dropped", nil)
+			default:
+				c.R.Hold("R-ROUTE/stdio", p.Pos(recvN.Ast), f.Name, construct, "no path reaches the next Recv (or the end of Run) while the write destination still holds a selected writer", true)
+			}
+		}
+	} else {
+		c.R.Undecided("R-ROUTE/stdio", "grpcStdioClient.Run", "anchor", "function not found")
+	}
+	// (b) net/rpc: copyStream copies until the source ends
+	if f := p.Fn("copyStream"); f != nil {
+		info := f.Pkg.TypesInfo
+		var params []*types.Var
+		for _, fd := range f.Type.Params.List {
+			for _, nm := range fd.Names {
+				if v, ok := info.Defs[nm].(*types.Var); ok {
+					params = append(params, v)
+				}
+			}
+		}
+		isParam := func(e ast.Expr) bool {
+			v, _ := identObj(info, e).(*types.Var)
+			for _, pv := range params {
+				if v == pv {
+					return true
+				}
+			}
+			return false
+		}
+		whole, limited := false, ""
+		for _, call := range f.Calls() {
+			nm := p.CalleeName(f, call)
+			if !strings.HasPrefix(nm, "io.") {
+				continue
+			}
+			np := 0
+			for _, a := range call.Args {
+				if isParam(a) {
+					np++
+				}
+			}
+			switch nm {
+			case "io.Copy", "io.CopyBuffer":
+				if np >= 2 {
+					whole = true
+				}
+			case "io.CopyN", "io.LimitReader", "io.ReadFull", "io.ReadAtLeast", "io.NewSectionReader":
+				if np >= 1 {
+					limited = nm
+				}
+			}
+		}
+		construct := "stream copy runs until the source ends"
+		switch {
+		case limited != "":
+			c.R.Violate("R-ROUTE/stdio", p.Pos(f.Node()), f.Name, construct,
+				"the net/rpc stdio copy is bounded by "+limited+": after that many bytes the copy goroutine ends and everything the plugin writes afterwards is silently dropped", nil)
+		case whole:
+			c.R.Hold("R-ROUTE/stdio", p.Pos(f.Node()), f.Name, construct, "io.Copy(dst, src) on the two parameters", true)
+		default:
+			c.R.Undecided("R-ROUTE/stdio", f.Name, construct, "no io.Copy of the source parameter into the destination parameter found")
+		}
+	} else {
+		c.R.Undecided("R-ROUTE/stdio", "copyStream", "anchor", "function not found")
+	}
+}
